@@ -2,10 +2,10 @@ import AiutiVerif.Split.Run
 /-!
 # C18 — `split` partitions its input, lazily, evaluating each element once
 
-Property theorems only (helpers: `Lemmas`, `Abs`, `Run`).  All are stated for the operational
-model of `Model.lean`, for every source list, every condition (stateful callable, or iterable
-of any length; any truthiness function) and **every sequence of `next()` calls** on the two
-result iterators — a sequence that never mentions a side is "abandoning" it.
+Property theorems only (helpers: `Lemmas`, `Run`).  All are stated for the operational model of
+`Model.lean` (the pair-stream implementation, fix for F39), for every source list, every condition
+(stateful callable, or iterable of any length; any truthiness function) and **every sequence of
+`next()` calls** on the two result iterators — a sequence that never mentions a side is "abandoning" it.
 -/
 namespace AiutiVerif.Split
 variable {α σ : Type}
@@ -13,14 +13,14 @@ variable {α σ : Type}
 /-- The model's fuel is never exhausted: every `next()` returns an element or stops. -/
 theorem C18_next_total (cfg : Cfg α σ) (ops : List Bool) :
     ∀ p ∈ (run cfg ops (init cfg)).1, p.2 ≠ .outOfFuel := by
-  obtain ⟨_, _, _, _, _, _, h, _⟩ := run_init cfg ops
+  obtain ⟨_, _, _, _, _, _, _, h, _, _⟩ := run_init cfg ops
   exact h
 
 /-- In source order, only matching elements: what a side has yielded so far is a prefix of the
 matching elements of the first `min (len iterable) (len condition)` elements. -/
 theorem C18_side_prefix (cfg : Cfg α σ) (ops : List Bool) (side : Bool) :
     outs side (run cfg ops (init cfg)).1 <+: sideSpec cfg side := by
-  obtain ⟨i', _, _, _, _, h, _, _⟩ := run_init cfg ops
+  obtain ⟨_, _, cu, _, _, _, h, _, _, _⟩ := run_init cfg ops
   rw [← h side]; exact filt_prefix cfg side _
 
 /-- Exactly: once a side has stopped it has yielded all of its elements (so draining a side
@@ -28,8 +28,9 @@ yields exactly the truthy resp. falsy elements), whatever was done with the othe
 theorem C18_side_complete (cfg : Cfg α σ) (ops : List Bool) (side : Bool)
     (h : (side, Out.stop) ∈ (run cfg ops (init cfg)).1) :
     outs side (run cfg ops (init cfg)).1 = sideSpec cfg side := by
-  obtain ⟨i', _, _, _, _, hf, _, hs⟩ := run_init cfg ops
-  rw [← hf side]; exact filt_ge cfg side _ (hs side h)
+  obtain ⟨_, _, cu, fn, _, wf, hf, _, hs, _⟩ := run_init cfg ops
+  rw [← hf side]
+  exact filt_ge cfg side _ (Nat.le_of_eq (wf.finEnd side (hs side h)).symm)
 
 /-- Together the two sides are a partition of the first `min` elements. -/
 theorem C18_partition (cfg : Cfg α σ) :
@@ -55,32 +56,41 @@ theorem C18_partition (cfg : Cfg α σ) :
   · unfold pairs
     rw [hz]; simp
 
-/-- A callable condition is evaluated exactly once per element, in source order, and only as
-far as some side has needed a selector (lazily): the log of its arguments is the prefix of
-the source whose length is the larger of the two selector cursors.  An iterable condition is
-never called. -/
+/-- A callable condition is evaluated exactly once per element, in source order, and only as far as
+some side has needed a pair (lazily): the log of its arguments is the prefix of the source whose
+length is the larger of the two cursors.  An iterable condition is never called. -/
 theorem C18_pred_once (cfg : Cfg α σ) (ops : List Bool) :
     let s := (run cfg ops (init cfg)).2
-    (∀ f, cfg.cond = .callable f →
-        s.predLog = cfg.src.take (max (s.c true) (s.c false))) ∧
+    (∀ f, cfg.cond = .callable f → s.predLog = cfg.src.take (max (s.cur true) (s.cur false))) ∧
     (∀ l, cfg.cond = .iter l → s.predLog = []) := by
-  obtain ⟨i', c', hst, _, _, _, _, _⟩ := run_init cfg ops
+  obtain ⟨n, e, cu, fn, hst, wf, _, _, _, _⟩ := run_init cfg ops
   simp only [hst]
   constructor
-  · intro f hf; simp [canon, hf]
+  · intro f hf; simp [canon, hf, wf.nMax]
   · intro l hl; simp [canon, hl]
 
-/-- The source is consumed at most once per element, in order (`srcPulled ++ srcRest` is the
-source), and never beyond what some cursor has asked for. -/
+/-- The source is consumed at most once per element, in order (`srcPulled ++ srcRest` is the source);
+with a callable condition never beyond what some cursor has asked for; with an iterable condition at
+most one element more per `next()` call that came back empty-handed (the `map` object pulls an
+element before it finds the condition exhausted). -/
 theorem C18_source_once (cfg : Cfg α σ) (ops : List Bool) :
     let s := (run cfg ops (init cfg)).2
     s.srcPulled ++ s.srcRest = cfg.src ∧
-    s.srcPulled.length ≤ max (max (s.i true) (s.i false)) (max (s.c true) (s.c false)) := by
-  obtain ⟨i', c', hst, _, _, _, _, _⟩ := run_init cfg ops
+    s.srcPulled.length ≤ max (s.cur true) (s.cur false) + stops (run cfg ops (init cfg)).1 ∧
+    (∀ f, cfg.cond = .callable f → s.srcPulled = cfg.src.take (max (s.cur true) (s.cur false))) := by
+  obtain ⟨n, e, cu, fn, hst, wf, _, _, _, he⟩ := run_init cfg ops
   simp only [hst]
-  cases hc : cfg.cond with
-  | callable f => simp [canon, hc]; omega
-  | iter l => simp [canon, hc]; omega
+  refine ⟨by simp [canon], ?_, ?_⟩
+  · simp only [canon, List.length_take]
+    rw [← wf.nMax]
+    omega
+  · intro f hf
+    have he0 : e = 0 := by
+      rcases Nat.eq_zero_or_pos e with h0 | h0
+      · exact h0
+      · exact absurd hf ((wf.lost h0).2 f)
+    subst he0
+    simp [canon, wf.nMax]
 
 /-- `exhaust` consumes its whole argument (and has no other result). -/
 theorem C18_exhaust (l : List α) : exhaust l = l.length := by
@@ -98,12 +108,12 @@ example :
       [(false, .val 11), (false, .val 14), (true, .val 10), (false, .stop),
        (true, .val 12), (true, .val 13)] := by decide
 
-/-- Iterable condition shorter than the source: both sides stop after two elements and one
-further source element is pulled per failed `next()`. -/
+/-- Iterable condition shorter than the source: both sides stop after two elements; the `map` object
+loses one further source element per `next()` that reaches it (a generator that has stopped does not). -/
 example :
     let cfg : Cfg Nat Bool := { src := [1, 2, 3, 4], cond := .iter [true, false], truthy := id }
-    (run cfg [true, true, false, false] (init cfg)).1 =
-      [(true, .val 1), (true, .stop), (false, .val 2), (false, .stop)] ∧
-    (run cfg [true, true, false, false] (init cfg)).2.srcPulled = [1, 2, 3] := by decide
+    (run cfg [true, true, false, false, true] (init cfg)).1 =
+      [(true, .val 1), (true, .stop), (false, .val 2), (false, .stop), (true, .stop)] ∧
+    (run cfg [true, true, false, false, true] (init cfg)).2.srcPulled = [1, 2, 3, 4] := by decide
 
 end AiutiVerif.Split
